@@ -66,6 +66,8 @@ def step (s : St) (ts : List String) : St × String :=
     | .panic => (s', "panic")
   | ["restart"] => (s, s!"ok {s.frozen.length + 1}")
   | ["query"] => (s, query s)
+  -- oracle-only op of the harness (crash enumeration on copies of the node directory)
+  | ["crashfreeze"] => (s, "ok")
   | "block" :: _ =>
     match C02.parseBlock s.c ts with
     | none => (s, "bad-op")
